@@ -43,8 +43,8 @@ VARIABLES l,        \* index of the next event
 vars == << l, ctxs, lastEnc, lastDec, st, ntbuf >>
 
 (* one check of one property on one event *)
-Chk(x, ok, nt, devs) == [p |-> x, ok |-> ok, nt |-> nt, devs |-> IF ok THEN {} ELSE devs \cap Open]
-Skip(x) == [p |-> x, ok |-> TRUE, nt |-> FALSE, devs |-> {}]
+Chk(x, ok, nt, devs) == [p |-> x, ok |-> ok, nt |-> nt, devs |-> IF ok THEN {} ELSE devs \cap Open, sk |-> FALSE]
+Skip(x) == [p |-> x, ok |-> TRUE, nt |-> FALSE, devs |-> {}, sk |-> TRUE]    \* outside the property's domain: not an evaluation
 
 NoEnc == [ok |-> FALSE, key |-> << >>, kind |-> "", buf |-> << >>, type |-> 0, lo |-> 0,
           payload |-> << >>, cc |-> 0, fits |-> FALSE]
@@ -401,7 +401,7 @@ Init == /\ l = 1 /\ ctxs = << >> /\ lastEnc = NoEnc /\ lastDec = NoDec
 Failing(cs) == {c.p : c \in {d \in cs : ~d.ok /\ d.devs = {}}}
 Knowns(cs)  == UNION {{<< c.p, d >> : d \in c.devs} : c \in {d \in cs : ~d.ok}}
 NTs(cs)     == {c.p : c \in {d \in cs : d.nt}}
-Evs(cs)     == {c.p : c \in cs}
+Evs(cs)     == {c.p : c \in {d \in cs : ~d.sk}}
 
 Apply(e, failing, knowns, nts, evs, nb) ==
        /\ st' = [ first |-> [x \in Props |-> IF st.first[x] = 0 /\ x \in failing THEN l ELSE st.first[x]],
